@@ -7,6 +7,9 @@ S: random histories (the same generator as C02, plus operator graphs): before an
    computed (np.shares_memory over all buffers, identity of containers, identity of node / edge records); after every fresh
    result each of its buffers is perturbed in place and zero_qnumbers() is called on it, re-digesting all other objects;
    TraceHeap.tla validates every record against the Call / Poke contracts.
+S (spec -> code): behaviours of Heap.tla from `tlc -simulate` are stepped through real MPS objects (plus a fixed MPO and a kept
+   input vector as bystanders); live set, sharing relation and the set of changed digests are compared with the model state after
+   every action.
 """
 import numpy as np
 
